@@ -22,7 +22,8 @@ CHECKS = {
         text="TLC enumerates every sequence of Set(id, w) calls (ids 1-3, weights 0-3, length <= 4 quick / <= 5 thorough) of specs/fn/Validators.tla, "
              "model-checks that the constructive canonical order is the declarative one (descending weight, ties by ascending id) and replays every transition "
              "on the real builder, comparing SortedIDs/SortedWeights/Idxs/GetIdx/GetID/GetWeightByIdx/Get/Exists/TotalWeight/Len with the specification and "
-             "requiring RLP decode(encode(v)), Copy() and Builder().Build() to show the same form. Big stakes: BigStakes.tla is model-checked at L = 3 over "
+             "requiring RLP decode(encode(v)) (into a fresh receiver, into a receiver that already holds an unrelated set, and into a by-value copy of the "
+             "previous set whose source must stay unchanged; re-encoded bytes equal), Copy() and Builder().Build() to show the same form. Big stakes: BigStakes.tla is model-checked at L = 3 over "
              "all small stake vectors (total fits, order kept, shift minimal, zeroed stakes dropped) and its limb-level operators, proved equal to the integer "
              "level for 2-bit limbs, are evaluated by TLC with 16-bit limbs for boundary (2^31, 2^32, 2^64, 2^255, 2^256-1) and seeded random stakes; the "
              "real ValidatorsBigBuilder.Build() (L = 31) is compared exactly with those values.",
@@ -50,7 +51,9 @@ CHECKS = {
              "every small dot list (all x) and evaluates Get for seeded lists with coordinates <= 2000 (valid and invalid, arguments at/next to/between dots): "
              "2*10^4 (quick) to 2*10^5 (thorough) values compared EXACTLY with piecefunc.NewFunc(dots)(x), panics compared with ValidDots. At the range "
              "extremes (coordinates up to maxVal, x up to 2^64-1, coordinates just beyond the limit) the real code's results are recorded and Apalache "
-             "checks that PieceFunc!Get/ValidDots yield the same. Extra obligations (Apalache, one pair of neighbouring dots over the whole range "
+             "checks that PieceFunc!Get/ValidDots yield the same. PieceSeq.tla treats the returned function as a sequential object whose result must not "
+             "depend on earlier lookups: every ordered pair of lookups on 26 lists of 3-4 dots is replayed on ONE function instance, plus random walks. "
+             "Extra obligations (Apalache, one pair of neighbouring dots over the whole range "
              "0..maxVal): no uint64 overflow, lo-1 <= f <= hi, |f-exact| <= |dy|/10^6+2, exact at the dots; the tightenings +1 and f >= lo are refuted.",
         note="The specification is proved symbolically for one piece over the full range, but the Go code is bound to it by vectors; a defect confined to "
              "an unsampled region of the 2^64 domain would go unnoticed. Piece selection is model-checked on small lists only.",
@@ -62,7 +65,9 @@ CHECKS = {
         text="specs/fn/Codec.tla defines BE(w, n)/LE(w, n) by digits, their limb-wise forms and the event-id layout. TLC prints the complete 16-bit table and "
              "the encodings of boundary and seeded random 32-/64-bit values (as 16-bit limbs; 31-bit values also as integers), the order of pairs of values and "
              "event ids with pairs of ids; bigendian/littleendian encoders and decoders, every idx.*.Bytes/BytesTo*, MutableBaseEvent.Build/SetID and "
-             "hash.Event.Epoch/Lamport are compared with every vector, bytes.Compare with the TLC-computed order. Extra obligations (Apalache, all values of "
+             "hash.Event.Epoch/Lamport are compared with every vector, bytes.Compare with the TLC-computed order. EventId.tla models dag.MutableBaseEvent as a "
+             "state machine (SetEpoch, SetLamport, SetID, Build in every order): every transition is replayed and Build must yield BE4(epoch) o BE4(lamport) o tail "
+             "for the CURRENT values. Extra obligations (Apalache, all values of "
              "each width): decode(encode(n)) = n, n < m <=> BE(n) <_bytes BE(m), limb-wise = value-wise, 64-bit and event-id order by 32-bit halves; "
              "little-endian order preservation is refuted (non-vacuity).",
         note="Exhaustive for 16 bits; 32- and 64-bit values are bound by boundary/random vectors. The 64-bit obligations are discharged compositionally "
